@@ -2,6 +2,7 @@ import BU.Gen.Codec
 import BU.Model.Ripemd
 import BU.Proofs.GenRmd
 import BU.Proofs.GenSchnorr
+import BU.Proofs.GenRmd2
 /-!
 # C20, continuation — the word-level leaves of `bitcoinutils/ripemd160.py` as *generated* code (tier T)
 
@@ -26,6 +27,29 @@ theorem gen_fi (x y z : Int) (i : Nat) (hi : i ≤ 4) :
 /-- anything else than 0..4 trips the `assert False` -/
 theorem gen_fi_rejects (x y z : Int) (i : Int) (hi : i < 0 ∨ 4 < i) : Gen.rmd_fi x y z i = .error .assertion :=
   GenRmd.gen_fi_rejects x y z i hi
+
+/-! ### `compress` and `ripemd160` as generated code -/
+
+/-- the generated tables as the model's table record (the same record `C20.genTabs` is) -/
+abbrev genTabs : Rmd.Tabs := GenRmd2.genTabs
+
+/-- `compress` never raises; the five ints it returns denote (modulo 2^32) the model's new state, whatever ints — in range
+or not — the old state was given as -/
+theorem gen_compress (h0 h1 h2 h3 h4 : Int) (block : Bytes) :
+    ∃ v, Gen.rmd_compress h0 h1 h2 h3 h4 block = .ok v ∧
+      GenRmd2.Rel5 v (Rmd.compress genTabs (w32 h0, w32 h1, w32 h2, w32 h3, w32 h4) block) :=
+  GenRmd2.gen_compress h0 h1 h2 h3 h4 block
+
+/-- **the whole function**: on every byte string shorter than 2^61 (beyond that Python's `to_bytes(8)` of the bit length
+raises) the translated `ripemd160` returns exactly what the word-level model returns -/
+theorem gen_ripemd160 (data : Bytes) (hlen : data.length < 2 ^ 61) :
+    Gen.rmd_ripemd160 data = .ok (Rmd.ripemd160 genTabs data) :=
+  GenRmd2.gen_ripemd160 data hlen
+
+-- the official test vector "abc" through the generated code (kernel evaluation)
+example : (Gen.rmd_ripemd160 [0x61, 0x62, 0x63]).toOption =
+    some [0x8e, 0xb2, 0x08, 0xf7, 0xe0, 0x5d, 0x98, 0x7a, 0x9b, 0x04, 0x4a, 0x8e, 0x98, 0xc6, 0xb0, 0x87, 0xf1, 0x5a, 0x0b, 0xfc] := by
+  decide +kernel
 
 /-! ### the curve arithmetic of `bitcoinutils/schnorr.py` as generated code
 
